@@ -131,6 +131,34 @@ def _reference(system, name, spec, t, q, u, ud, lam, is_mat):
     return out, ncontr
 
 
+class UserOscillator:
+    """a user-written contribution as the documentation invites: two coordinates, linear stiffness / damping written with
+    whole-number literals, so that every local matrix it returns has an INTEGER dtype"""
+
+    def __init__(self, K, D, name):
+        self.nq, self.nu = 2, 2
+        self.q0, self.u0 = np.array([1.0, -2.0]), np.array([0.0, 3.0])
+        self.K, self.D, self.name = np.array(K), np.array(D), name
+
+    def q_dot(self, t, q, u):
+        return u
+
+    def q_dot_u(self, t, q):
+        return np.array([[1, 0], [0, 1]])
+
+    def M(self, t, q):
+        return np.array([[2, 0], [0, 3]])
+
+    def h(self, t, q, u):
+        return -(self.K @ q) - self.D @ u
+
+    def h_q(self, t, q, u):
+        return -self.K
+
+    def h_u(self, t, q, u):
+        return -self.D
+
+
 def _build_random_system(rng, ctx):
     from cardillo import System
     import cardillo.forces as F
@@ -154,6 +182,9 @@ def _build_random_system(rng, ctx):
         kind = ["fixed_frame", "moving_frame", "rotating_frame"][int(rng.integers(3))]
         f, _, _, m = gen.make_subsystem(rng, kind, f"f{i}")
         frames.append((kind, f, m)); system.add(f); comp.append(kind)
+    if rng.random() < 0.25:
+        K_ = rng.integers(-3, 6, size=(2, 2)); D_ = rng.integers(-2, 4, size=(2, 2))
+        system.add(UserOscillator(K_ + K_.T, D_, f"user{len(comp)}")); comp.append("user_contribution:integer_matrices")
     rigid = [b for k, b in bodies if k == "rigid_body"]
     rods = []
     if rng.random() < 0.45:
